@@ -63,6 +63,18 @@ def r_no_reordering(repo, rep, R, targets, what):
     return n
 
 
+def _entries_are_objects(v):
+    """may the entries of the module-level object created by expression v be changed in place?  (not when it is a
+    display of constants / names / tuples of those)"""
+    plain = lambda e: isinstance(e, (ast.Constant, ast.Name, ast.Attribute)) or (isinstance(e, ast.Tuple) and all(plain(x) for x in e.elts)) \
+        or (isinstance(e, ast.Call) and src(e.func) in ('frozenset', 'tuple', 're.compile', 'str', 'int', 'float'))
+    if isinstance(v, ast.Dict):
+        return not all(plain(x) for x in v.values if x is not None) or not v.values
+    if isinstance(v, (ast.List, ast.Set, ast.Tuple)):
+        return not all(plain(x) for x in v.elts) or not v.elts
+    return True
+
+
 def r_module_state(repo, rep, R, rels, consequence, only=None):
     """module-level objects (buffers, caches, counters) are shared by every call: none of them may be written to by a
     function, through local aliases either.  -> number of module-level objects seen.  `only`: restrict to these
@@ -89,6 +101,7 @@ def r_module_state(repo, rep, R, rels, consequence, only=None):
             local = {a.arg for a in fn.args.args + fn.args.kwonlyargs} | {t.id for n_ in ast.walk(fn) if isinstance(n_, ast.Name) and isinstance(n_.ctx, ast.Store) for t in [n_]}
             # local names that are just another name for a shared object
             alias = {}
+            entry_alias = set()
             for _ in range(2):
                 for n_ in ast.walk(fn):
                     if isinstance(n_, ast.Assign) and isinstance(n_.value, ast.Name) and \
@@ -100,6 +113,18 @@ def r_module_state(repo, rep, R, rels, consequence, only=None):
                         for it in n_.items:
                             if isinstance(it.context_expr, ast.Name) and it.context_expr.id in shared and isinstance(it.optional_vars, ast.Name):
                                 alias[it.optional_vars.id] = it.context_expr.id
+                    # ... or for one of its entries, when the entries are objects themselves: t = TABLE[k] / TABLE.get(k, {}) / TABLE.setdefault(k, [])
+                    if isinstance(n_, ast.Assign) and len(n_.targets) == 1 and isinstance(n_.targets[0], ast.Name):
+                        v_ = n_.value
+                        base_ = None
+                        if isinstance(v_, ast.Subscript) and isinstance(v_.value, ast.Name):
+                            base_ = v_.value.id
+                        elif isinstance(v_, ast.Call) and isinstance(v_.func, ast.Attribute) and isinstance(v_.func.value, ast.Name) and v_.func.attr in ('get', 'setdefault'):
+                            base_ = v_.func.value.id
+                        once_ = sum(1 for x_ in ast.walk(fn) if isinstance(x_, ast.Name) and isinstance(x_.ctx, ast.Store) and x_.id == n_.targets[0].id) == 1
+                        if base_ is not None and once_ and base_ in shared and base_ not in local and _entries_are_objects(shared[base_].value):
+                            alias[n_.targets[0].id] = base_
+                            entry_alias.add(n_.targets[0].id)
             shared_here = dict(shared)
             for a_, b_ in alias.items():
                 shared_here[a_] = shared[b_]
@@ -117,9 +142,11 @@ def r_module_state(repo, rep, R, rels, consequence, only=None):
                         and n_.value.id in shared_here and n_.value.id not in local:
                     hit = (n_.value.id, 'item / attribute assigned')
                 if hit:
+                    through = ' through its entry `%s`' % hit[0] if hit[0] in entry_alias else ''
+                    hit = (alias.get(hit[0], hit[0]), hit[1])
                     rep.violation(R, '%s:%s %s' % (rel, n_.lineno, qualname_of(fn)), '%s:%s:module-state:%s' % (rel, qualname_of(fn), hit[0]),
-                                  '%s writes to the module-level object `%s` (%s): %s'
-                                  % (qualname_of(fn), hit[0], hit[1], consequence))
+                                  '%s writes to the module-level object `%s`%s (%s): %s'
+                                  % (qualname_of(fn), hit[0], through, hit[1], consequence))
         # objects created in a class body (plain class attributes, dataclass field defaults that are not factories) are one
         # object for all instances: a method that consumes or changes it through `self` changes it for every later instance
         for cls in [c for c in ast.walk(mod.tree) if isinstance(c, ast.ClassDef)]:
